@@ -180,8 +180,13 @@ def _enum_values(cls):
 def sym_enum_call(cls, value, *a, **kw):
     if isinstance(value, SymInt) and not a and not kw:
         if issubclass(cls, enum.Flag):
-            # a Flag accepts combinations: fork over the values the word can take (harness bounds it to <= 64)
-            return _real['enum_call'](cls, value.concretize('Flag enum %s' % cls.__name__))
+            # a Flag accepts combinations: fork over the values the word can take when there are few, else carry the
+            # word symbolically (membership tests become bit tests)
+            dom = eng().domain(value.e)
+            if len(dom) <= 64:
+                return _real['enum_call'](cls, value.concretize('Flag enum %s' % cls.__name__))
+            from .maps import SymFlag
+            return SymFlag(cls, value)
         vals, members = _enum_values(cls)
         key = (cls, value.e.get_id())
         hit = _enum_conds.get(key)
